@@ -23,6 +23,10 @@ type Processor struct {
 	work    chan struct{}
 	threads int
 	wg      *sync.WaitGroup
+
+	// closeOut ensures that out is closed only once
+	// when several exiting workers all see every token returned.
+	closeOut sync.Once
 }
 
 // Return a new Processor to operate the function f over the number of threads specified taking
@@ -55,7 +59,7 @@ func NewProcessor(queue chan Operator, buffer int, threads int) (p *Processor) {
 				}
 				p.work <- struct{}{}
 				if len(p.work) == p.threads {
-					close(p.out)
+					p.closeOut.Do(func() { close(p.out) })
 				}
 				p.wg.Done()
 			}()
